@@ -201,6 +201,38 @@ def check(rep, F, tier, replay=None):
     fixpoint_rule(rep, F)
     from ruleutil import batch_total_rule
     batch_total_rule(rep, F)
+    # COLRET-gate: who may store a collateral return, and after which check
+    rep.rule("COLRET-gate", "every function that stores Some(output) into TransactionBuilder.collateral_return either computes the output's minimum ADA first (min_ada_for_output / MinOutputAdaCalculator) or is the audited placeholder / clearing code: a collateral return below min-ADA cannot reach the body unchecked")
+    TB_ = "builders::tx_builder::TransactionBuilder"
+    n_cr = 0
+    for fid_, fn_ in F.fns.items():
+        if "/tests/" in fn_["file"] or F.is_derived(fid_):
+            continue
+        ffs_ = ff.FnFields(F, fid_)
+        st_ = ffs_.stores_to(TB_, "collateral_return")
+        if not st_:
+            continue
+        n_cr += 1
+        rep.inst("COLRET-gate")
+        key_ = F.key(fid_)
+        none_only = True
+        for s_ in st_:
+            rv = s_[4]
+            for _ in range(3):
+                if isinstance(rv, list) and rv[0] == "use" and rv[1][0] in ("c", "m"):
+                    ds_ = [st2[3] for bb2 in fn_["bbs"] for st2 in bb2["st"] if st2[1] == "=" and st2[2] == rv[1][1]]
+                    if len(ds_) == 1:
+                        rv = ds_[0]
+                        continue
+                break
+            if not (isinstance(rv, list) and rv[0] == "agg" and rv[3] == "None"):
+                none_only = False
+        if none_only:
+            continue  # clearing the field
+        checked = any(any(k_ in (c.to or "") for k_ in ("min_ada_for_output", "MinOutputAdaCalculator", "calculate_ada")) for c in F.calls(fid_))
+        if not checked:
+            rep.violation("COLRET-gate", key_, "%s stores a collateral return output without any min-ADA computation: set_collateral_return(1 lovelace to a base address) is accepted and build_tx() returns a body whose collateral return is below the minimum (add_output rejects the same output)" % key_, {})
+    rep.floor("functions storing TransactionBuilder.collateral_return", 3, n_cr)
     return rep.finish(
         EXPLANATION,
         ["min_ada_for_output's numeric bound (fixed point over the coin width) is not decided statically", "collateral return gates are C19's rules"],
